@@ -5,11 +5,7 @@ package gremfam
 
 import (
 	"context"
-	"encoding/json"
-	"fmt"
-	"os"
 	"reflect"
-	"strings"
 
 	"deps.dev/util/resolve"
 	"github.com/google/osv-scalibr/guidedremediation/options"
@@ -215,12 +211,6 @@ func c12PatchClasses(c c12Case, w *universe.World, p result.Patch, cls map[strin
 	}
 	if all, part := analyse(ups), analyse(otherUps); all != nil && part != nil && !reflect.DeepEqual(all, part) {
 		cls["no_dev_mixed_patch_dev_update_matters"] = true
-	} else if os.Getenv("C12_DEBUG") != "" {
-		fmt.Printf("DEBUG-NOMATTER %s\n%s\npatch %s\nall=%v part=%v\nuniverse:\n%s\n", c.Driver, c.Manifest.Render(), describePatch(p), all, part, strings.Join(c.Universe.Schema, "\n"))
-		for _, v := range c.Vulns {
-			b, _ := json.Marshal(v)
-			fmt.Printf("  %s\n", b)
-		}
 	}
 }
 
